@@ -402,6 +402,97 @@ example : upgradeRequested exReqUpgrade = bs "websocket" ∧
       | _ => false) = true := by
   with_unfolding_all decide
 
+/-! ## C''. The fixed hop-by-hop list does not depend on what `Connection` says -/
+
+/-- `removeHopByHopHeaders` with a fast path for a lone `Connection: keep-alive` / `close` line (the
+    shape of seeded change c06-11): the line nominates nothing, so only the connection-management
+    fields are deleted and the fixed list is not walked.  A counter-model, not part of the pipeline. -/
+def removeHopByHopLoneFast (h : HMap) : HMap :=
+  match hget h (bs "Connection") with
+  | [v] =>
+    if eqFold v (bs "keep-alive") || eqFold v (bs "close") then
+      C16.goDel (C16.goDel (C16.goDel h (bs "Connection")) (bs "Keep-Alive")) (bs "Proxy-Connection")
+    else removeHopByHop h
+  | _ => removeHopByHop h
+
+/-- The hop-by-hop step deletes the fixed list UNCONDITIONALLY: for every header map, whatever its
+    `Connection` entry says — as it is; with `Connection` set to any list of values (one line or several,
+    a lone `keep-alive` / `close`, any options, empty); with `Connection` deleted — no name of the fixed
+    list (Connection, Keep-Alive, Proxy-Authenticate, Proxy-Authorization, Proxy-Connection, Te, Trailer,
+    Transfer-Encoding, Upgrade) has an entry afterwards, and on the canonical-key maps `ReadRequest`
+    produces no spelling of the name is left.  (The messages written upstream:
+    `c06_client_proxy_authorization_reaches_no_hop`, `c01_fixed_hop_by_hop_removed_whatever_connection_says`.) -/
+theorem c06_fixed_hop_by_hop_removed_whatever_connection_says (h : HMap) {n : Bytes}
+    (hn : n ∈ hopByHopNames) :
+    HMap.get (removeHopByHop h) n = none ∧
+    (∀ conn : List Bytes, HMap.get (removeHopByHop (HMap.put h (bs "Connection") conn)) n = none) ∧
+    HMap.get (removeHopByHop (C16.goDel h (bs "Connection"))) n = none ∧
+    (C16.CanonKeys h → n.all isTokenByte = true → NoKeyFold n (removeHopByHop h)) :=
+  ⟨get_removeHopByHop_none h (Or.inr hn), fun _ => get_removeHopByHop_none _ (Or.inr hn),
+   get_removeHopByHop_none _ (Or.inr hn), fun hc ht => noKeyFold_removeHopByHop hc hn ht⟩
+
+/-- why the fast path is wrong for EVERY message, not only the witness: on a lone `keep-alive` / `close`
+    the variant hands every other entry of the map on as it came — in particular those of the fixed list
+    (Proxy-Authorization, Proxy-Authenticate, Te, Trailer, Transfer-Encoding, Upgrade), which
+    `removeHopByHop` deletes (`c06_fixed_hop_by_hop_removed_whatever_connection_says`) -/
+theorem c06_lone_fast_path_passes_fixed_names_on (h : HMap) {v : Bytes}
+    (hv : hget h (bs "Connection") = [v])
+    (hm : (eqFold v (bs "keep-alive") || eqFold v (bs "close")) = true) {n : Bytes}
+    (hne : n ∉ [bs "Connection", bs "Keep-Alive", bs "Proxy-Connection"]) :
+    HMap.get (removeHopByHopLoneFast h) n = HMap.get h n := by
+  have key : ∀ m ∈ [bs "Connection", bs "Keep-Alive", bs "Proxy-Connection"], canonicalKey m = m := by
+    decide +kernel
+  have ne : ∀ m ∈ [bs "Connection", bs "Keep-Alive", bs "Proxy-Connection"], n ≠ canonicalKey m := by
+    intro m hmem e
+    rw [key m hmem] at e
+    exact hne (e ▸ hmem)
+  unfold removeHopByHopLoneFast
+  rw [hv]
+  simp only [hm, if_true]
+  rw [get_goDel_ne _ (ne _ (by simp)), get_goDel_ne _ (ne _ (by simp)), get_goDel_ne _ (ne _ (by simp))]
+
+example : bs "Proxy-Authorization" ∈ hopByHopNames ∧ bs "Te" ∈ hopByHopNames ∧ bs "Upgrade" ∈ hopByHopNames ∧
+    (bs "Proxy-Authorization").all isTokenByte = true := by decide +kernel
+
+/-- what a client that keeps its connection open sends next to its credential for this proxy -/
+def exLone (opt : Bytes) : HMap :=
+  toHeader [(bs "Host", bs "origin.test"), (bs "Connection", opt),
+    (bs "Proxy-Authorization", bs "Basic Z2F0ZTprZWVwZXI="), (bs "TE", bs "trailers"),
+    (bs "Keep-Alive", bs "timeout=5"), (bs "X-Custom", bs "v")]
+
+theorem c06_lone_option_fast_path_witness :
+    (∀ opt ∈ [bs "keep-alive", bs "close", bs "Keep-Alive", bs "CLOSE"],
+      hget (exLone opt) (bs "Connection") = [opt] ∧
+      HMap.get (removeHopByHopLoneFast (exLone opt)) (bs "Proxy-Authorization") = some [bs "Basic Z2F0ZTprZWVwZXI="] ∧
+      HMap.get (removeHopByHopLoneFast (exLone opt)) (bs "Te") = some [bs "trailers"] ∧
+      HMap.get (removeHopByHopLoneFast (exLone opt)) (bs "Keep-Alive") = none ∧
+      HMap.get (removeHopByHop (exLone opt)) (bs "Proxy-Authorization") = none ∧
+      HMap.get (removeHopByHop (exLone opt)) (bs "Te") = none ∧
+      HMap.get (removeHopByHop (exLone opt)) (bs "X-Custom") = some [bs "v"]) ∧
+    -- with a second option on the line the variant takes the ordinary path
+    removeHopByHopLoneFast (exLone (bs "keep-alive, x-custom")) = removeHopByHop (exLone (bs "keep-alive, x-custom")) := by
+  decide +kernel
+
+def exReqLone (opt : Bytes) : Request :=
+  { method := bs "GET", minor := 1, target := .origin, path := bs "/", query := none,
+    fields := [(bs "Host", bs "origin.test"), (bs "Connection", opt),
+               (bs "Proxy-Authorization", bs "Basic Z2F0ZTprZWVwZXI="), (bs "proxy-authorization", bs "Bearer second"),
+               (bs "TE", bs "trailers"), (bs "Proxy-Authenticate", bs "Basic realm=\"x\"")] }
+
+-- the whole pipeline on a lone `Connection: keep-alive` / `close` next to the credential for this proxy (basic
+-- auth on): the origin gets no proxy-authorization, te or proxy-authenticate; an upstream proxy its own credential only
+example : ∀ opt ∈ [bs "keep-alive", bs "close"],
+    (match Req.processRequest exGate { clientIP := bs "10.0.0.1" } (exReqLone opt) with
+      | .forwarded (.direct _) out =>
+        out.fields.lookup (bs "proxy-authorization") == none && out.fields.lookup (bs "te") == none &&
+        out.fields.lookup (bs "proxy-authenticate") == none
+      | _ => false) = true ∧
+    (match Req.processRequest { exUp with basicAuth := exGate.basicAuth } { clientIP := bs "10.0.0.1" } (exReqLone opt) with
+      | .forwarded (.proxy _) out =>
+        out.fields.lookup (bs "proxy-authorization") == some [bs "Basic dXA6cHc="] && out.fields.lookup (bs "te") == none
+      | _ => false) = true := by
+  decide +kernel
+
 /-! ## D. Site credentials -/
 
 /-- attached exactly when the table yields a credential for the request URL and the client supplied no
